@@ -490,4 +490,12 @@ func ParseFileCallback variant stoponerr
   ensures @fails-on-unreadable [C10] result == nil ==> FileNameOf(lastOpen) == fileName && !RdFailed(lastOpen)
   ensures @fails-on-malformed [C09] result == nil ==> (forall i int :: {RdLine(lastOpen, i)} 0 <= i && i < RdN(lastOpen) ==> !Malformed(lastOpen, i, cc))
   ensures @error-or-all [C10] result == nil ==> (forall j int :: {cbStop[j]} old(cbLen) <= j && j < cbLen ==> !cbStop[j] && cbErr[j] == nil)
+
+// NewParser: the three channels are UNBUFFERED (C18). The producer's send trace is what a consumer sees only because
+// every send is a rendezvous: with a buffered Errors or Done channel a consumer selecting over the three channels can
+// see Done before a record or an error that was sent earlier.
+func NewParser returns (p)
+  props C18 C08
+  ensures @unbuffered [C18] chancap(p.Nodes) == 0 && chancap(p.Errors) == 0 && chancap(p.Done) == 0
+  ensures @config p.config == c
 @*/
